@@ -165,8 +165,8 @@ BASE_RETURNS = [
      ["core::default::Default::default()"], "blanket FlatDefault: the default emplacer is Default::default()"),
     # containers
     (dict(krate="flatty_containers", trait="flatty_base::traits::FlatUnsized", method="ptr_from_bytes", self_adt="flatty_containers::vec::FlatVec"),
-     ["core::ptr::slice_from_raw_parts_mut($bytes, Div(utils::floor_mul(Sub(mem::slice_ptr_len($bytes), <fc::vec::FlatVec<T, L> as fc::vec::DataOffset<T, L>>::DATA_OFFSET), <fc::vec::FlatVec<T, L> as FlatBase>::ALIGN), %s))" % S("T")],
-     "FlatVec capacity = floor(len - DATA_OFFSET, ALIGN) / SIZE (view never exceeds the slice)"),
+     ["core::ptr::slice_from_raw_parts_mut($bytes, core::option::Option::<T>::unwrap_or(core::num::<impl usize>::checked_div(utils::floor_mul(Sub(mem::slice_ptr_len($bytes), <fc::vec::FlatVec<T, L> as fc::vec::DataOffset<T, L>>::DATA_OFFSET), <fc::vec::FlatVec<T, L> as FlatBase>::ALIGN), %s), 18446744073709551615))" % S("T")],
+     "FlatVec capacity = floor(len - DATA_OFFSET, ALIGN) / SIZE, unbounded for zero-sized elements (view never exceeds the slice)"),
     (dict(krate="flatty_containers", trait="flatty_base::traits::FlatUnsized", method="ptr_to_bytes", self_adt="flatty_containers::vec::FlatVec"),
      ["core::ptr::slice_from_raw_parts_mut($this, Add(<fc::vec::FlatVec<T, L> as fc::vec::DataOffset<T, L>>::DATA_OFFSET, Mul(%s, mem::slice_ptr_len($this))))" % S("T")],
      "FlatVec bytes = DATA_OFFSET + capacity * SIZE"),
@@ -381,3 +381,87 @@ def dataiter_next_rule(F, R):
     ok = len(rets) == 1 and ".1, iter::PosIter::<iter::TwoOrMoreTypes<T, I>>::next($self.2)}" in rets[0] and "iter::Data::value(iter::Data::split(" in rets[0] and ").0)" in rets[0]
     R.ob("F3.next-parts", "iter::DataIter::next", "return", ok,
          "DataIter::next hands out the first part as the item and continues on the second part with the advanced position iterator", where=b["span"])
+
+
+RESID = "<core::result::Result<T, F> as core::ops::try_trait::FromResidual<core::result::Result<core::convert::Infallible, E>>>::from_residual((<core::result::Result<T, E> as core::ops::try_trait::Try>::branch(%s) as Break).0)"
+
+TRAIT_RETURNS = [
+    (dict(krate="flatty_base", def_re=r"^flatty_base::traits::FlatUnsized::from_bytes_unchecked$"), ["FlatUnsized::ptr_from_bytes($bytes)"],
+     "from_bytes_unchecked is the view made by ptr_from_bytes over the same bytes"),
+    (dict(krate="flatty_base", def_re=r"^flatty_base::traits::FlatUnsized::from_mut_bytes_unchecked$"), ["FlatUnsized::ptr_from_bytes($bytes)"],
+     "from_mut_bytes_unchecked is the view made by ptr_from_bytes over the same bytes"),
+    (dict(krate="flatty_base", def_re=r"^flatty_base::traits::FlatUnsized::as_bytes$"), ["FlatUnsized::ptr_to_bytes($self)"], "as_bytes = ptr_to_bytes(self)"),
+    (dict(krate="flatty_base", def_re=r"^flatty_base::traits::FlatUnsized::as_mut_bytes$"), ["FlatUnsized::ptr_to_bytes($self)"], "as_mut_bytes = ptr_to_bytes(self)"),
+    (dict(krate="flatty_base", def_re=r"^flatty_base::traits::FlatUnsized::new_in_place$"),
+     [RESID % "flatty_base::emplacer::Emplacer::emplace($emplacer, $bytes)", "Ok{FlatUnsized::from_mut_bytes_unchecked($bytes)}"],
+     "new_in_place: checked emplace on the given bytes, its error is returned, else the view of the same bytes"),
+    (dict(krate="flatty_base", def_re=r"^flatty_base::traits::FlatUnsized::assign_in_place$"),
+     [RESID % "flatty_base::emplacer::Emplacer::emplace_unchecked($emplacer, FlatUnsized::as_mut_bytes($self))", "Ok{FlatUnsized::from_mut_bytes_unchecked(FlatUnsized::as_mut_bytes($self))}"],
+     "assign_in_place: emplace over the value's own bytes, its error is returned with no further store, else the view of the same bytes"),
+    (dict(krate="flatty_base", def_re=r"^flatty_base::traits::FlatValidate::validate_ptr$"), ["FlatValidate::validate_unchecked(FlatUnsized::ptr_to_bytes($this))"],
+     "validate_ptr validates the pointee's own bytes"),
+    (dict(krate="flatty_base", def_re=r"^flatty_base::traits::FlatDefault::default_in_place$"),
+     ["FlatUnsized::new_in_place($bytes, flatty_base::traits::FlatDefault::default_emplacer())"], "default_in_place = new_in_place(bytes, default_emplacer())"),
+    (dict(krate="flatty_base", def_re=r"^<T as flatty_base::emplacer::Emplacer<T>>::emplace_unchecked$"), ["Ok{FlatUnsized::ptr_from_bytes($bytes)}"],
+     "a sized value is its own emplacer: result is the slot start"),
+    (dict(krate="flatty_base", def_re=r"TwoOrMoreTypes<T, I>> as flatty_base::utils::iter::ValidateIter>::validate_all$"),
+     [RESID % "core::result::Result::<T, E>::map_err(FlatValidate::validate_unchecked(iter::DataIter::<'a, D, I>::value(<iter::DataIter<'a, D, I> as core::clone::Clone>::clone($self))), closure{$self})",
+      "iter::ValidateIter::validate_all(iter::DataIter::<'a, D, iter::TwoOrMoreTypes<T, I>>::next($self).0)"],
+     "validate_all: validate the current item on the current slice (error shifted), then the rest of the list"),
+    (dict(krate="flatty_base", def_re=r"SingleType<T>> as flatty_base::utils::iter::ValidateIter>::validate_all$"),
+     [RESID % "core::result::Result::<T, E>::map_err(FlatValidate::validate_unchecked(iter::DataIter::<'a, D, I>::value(<iter::DataIter<'a, D, I> as core::clone::Clone>::clone($self))), closure{$self})",
+      "Ok{tuple{}}"],
+     "validate_all (last item): validate it on the remaining slice (error shifted)"),
+    (dict(krate="flatty_base", def_re=r"ValidateIter>::validate_all::\{closure#0\}$", self_re=None), None, None),
+    (dict(krate="flatty_containers", def_re=r"^flatty_containers::wrap::FlatWrap::<F, P>::from_wrapped_bytes$"),
+     [RESID % "FlatValidate::validate(core::convert::AsRef::as_ref($pointer))", "Ok{fc::wrap::FlatWrap::<F, P>::from_wrapped_bytes_unchecked($pointer)}"],
+     "FlatWrap::from_wrapped_bytes wraps the pointer only after F::validate succeeded on its bytes"),
+    (dict(krate="flatty_containers", def_re=r"^flatty_containers::wrap::FlatWrap::<F, P>::new_in_place$"),
+     [RESID % "FlatUnsized::new_in_place(core::convert::AsMut::as_mut($pointer), $emplacer)", "Ok{fc::wrap::FlatWrap::<F, P>::from_wrapped_bytes_unchecked($pointer)}"],
+     "FlatWrap::new_in_place wraps the pointer only after F::new_in_place succeeded on its bytes"),
+    (dict(krate="flatty_containers", def_re=r"^flatty_containers::wrap::FlatWrap::<F, P>::default_in_place$"),
+     ["fc::wrap::FlatWrap::<F, P>::new_in_place($pointer, flatty_base::traits::FlatDefault::default_emplacer())"], "FlatWrap::default_in_place = new_in_place(pointer, default_emplacer())"),
+    (dict(krate="flatty_containers", def_re=r"^<flatty_containers::wrap::FlatWrap<F, P> as core::ops::deref::Deref>::deref$"),
+     ["FlatUnsized::from_bytes_unchecked(core::convert::AsRef::as_ref($self.0))"], "FlatWrap derefs to the view of its own pointer's bytes"),
+    (dict(krate="flatty_containers", def_re=r"^<flatty_containers::wrap::FlatWrap<F, P> as core::ops::deref::DerefMut>::deref_mut$"),
+     ["FlatUnsized::from_mut_bytes_unchecked(core::convert::AsMut::as_mut($self.0))"], "FlatWrap derefs mutably to the view of its own pointer's bytes"),
+    (dict(krate="flatty_containers", def_re=r"^<flatty_containers::vec::FlatVec<T, L> as core::ops::deref::Deref>::deref$"), ["$self.0"], "FlatVec derefs to its inner vector and nothing else"),
+    (dict(krate="flatty_containers", def_re=r"^<flatty_containers::vec::FlatVec<T, L> as core::ops::deref::DerefMut>::deref_mut$"), ["$self.0"], "FlatVec derefs to its inner vector and nothing else"),
+    (dict(krate="flatty_containers", def_re=r"^<flatty_containers::string::FlatString<L> as core::ops::deref::Deref>::deref$"), ["$self.0"], "FlatString derefs to its inner string"),
+    (dict(krate="flatty_containers", def_re=r"^<flatty_containers::string::FlatString<L> as core::ops::deref::DerefMut>::deref_mut$"), ["$self.0"], "FlatString derefs to its inner string"),
+]
+
+
+def trait_method_rules(F, R):
+    tab = [t for t in TRAIT_RETURNS if t[1] is not None]
+    n = table_rules(F, R, tab, "F7.method")
+    R.floor("F7", "provided-method formulas compared", n, len(tab) - 1)
+    # closures of validate_all shift by the walker position
+    cl = [b for b in F.poly(krate="flatty_base", def_re=r"ValidateIter>::validate_all::\{closure#0\}$")]
+    want = ["flatty_base::error::Error::offset($e, iter::DataIter::<'a, D, I>::pos($1.0))"]
+    ok = len(cl) == 2 and all(the_return(Body(c)) == want for c in cl)
+    R.ob("E1.err-offset", "iter::ValidateIter::validate_all", "field", ok,
+         "validate_all: a field's error is shifted by the walker's position of that field (both impls)%s" % ("" if ok else " -- found %s" % [the_return(Body(c)) for c in cl]),
+         where="base/src/utils/iter.rs")
+    # sized emplacer writes the whole value at the slot start
+    b = F.one(krate="flatty_base", def_re=r"^<T as flatty_base::emplacer::Emplacer<T>>::emplace_unchecked$")
+    body = Body(b)
+    calls = [canon(body.expr_of_call(t, 0, bb)) for bb, t in body.calls()]
+    want = ["FlatUnsized::ptr_from_bytes($bytes)", "core::ptr::mut_ptr::<impl *mut T>::write(FlatUnsized::ptr_from_bytes($bytes), $self)"]
+    R.ob("F7.sized-emplacer", "<T as Emplacer<T>>::emplace_unchecked", "ptr.write", calls == want,
+         "a sized value is written whole with ptr.write at the start of its slot%s" % ("" if calls == want else " -- found %s" % calls), where=b["span"])
+    # who may call from_wrapped_bytes_unchecked / Error::offset semantics
+    callers = set()
+    for bj in F.poly(krate="flatty_containers"):
+        bd = Body(bj)
+        if find_calls(bd, "FlatWrap::<F, P>::from_wrapped_bytes_unchecked"):
+            callers.add(bj["def"])
+    exp = {"flatty_containers::wrap::FlatWrap::<F, P>::from_wrapped_bytes", "flatty_containers::wrap::FlatWrap::<F, P>::new_in_place"}
+    R.ob("F7.wrap-callers", "flatty_containers::wrap", "unchecked-ctor", callers == exp,
+         "from_wrapped_bytes_unchecked is called only after a successful validate / new_in_place (found %s)" % sorted(c.split("::")[-1] for c in callers),
+         where="containers/src/wrap.rs")
+    b = F.one(krate="flatty_base", def_re=r"^flatty_base::error::Error::offset$")
+    body = Body(b)
+    st = [(canon(body.expr_of_place(s["l"])), canon(body.expr_of_rvalue(s["r"]))) for bb, i, s in body.assigns() if s["l"]["p"] and s["l"]["v"] == 1]
+    R.ob("E1.offset-adds", "Error::offset", "pos+=offset", st == [("$self.1", "Add($offset, $self.1)")] and the_return(body) == ["$self"],
+         "Error::offset adds the offset to pos and keeps the kind%s" % ("" if st == [("$self.1", "Add($offset, $self.1)")] else " -- found %s" % st), where=b["span"])
